@@ -17,11 +17,12 @@ def run(model, rep):
                        'equal / rejected, or the file is unreadable, at every position of the list. (SEL) exactly the python files below a directory '
                        'argument and the explicitly named files are read, in order, symlinked directories are followed. (WRT) the only files opened for '
                        'writing are a selected source under --in-place or the --output file, in binary mode; a syntactic scan finds no other file-system '
-                       'mutation in the package. (ORD) a destination is opened for writing only after minify() has returned for that source, so a file '
+                       'mutation in the package. (CNT) what a file receives is the minified module for its own bytes, or its original bytes. (ORD) a destination is opened for writing only after minify() has returned for that source, so a file '
                        'whose minification fails is never truncated. (ERR) an unreadable file, a rejected source or an unlistable directory ends the run '
                        'with a failure status; files after it are neither read nor written. Not decided: atomicity of the final write against a crash.')
     for r, t in [('C15.SEL', 'exactly the .py/.pyw files below directory arguments and the named files are read, in order (enumerated)'),
                  ('C15.WRT', 'files opened for writing: selected source under --in-place, or --output; binary; no other fs mutation in the package'),
+                 ('C15.CNT', 'every written file receives the complete minified module for its own bytes, or its original bytes'),
                  ('C15.ORD', 'the destination is opened for writing only after minify() returned for that source'),
                  ('C15.ERR', 'a failing file ends the run with a failure status; later files untouched; walk errors are not swallowed')]:
         rep.rule(r, t)
@@ -30,9 +31,10 @@ def run(model, rep):
     modes = E.run_modes(model, rep.tier)
     E.report(rep, 'C15.SEL', where, modes, ('selection',), 'selection', 'exactly the selected python sources are read, in order', None)
     E.report(rep, 'C15.WRT', where, modes, ('destination', 'channel'), 'destinations', 'only selected sources (in place) or --output are opened for writing, in binary mode', None)
+    E.report(rep, 'C15.CNT', where, modes, ('payload', 'size'), 'content', 'each file receives the minified module for its own bytes or keeps its original bytes', None)
     E.report(rep, 'C15.ORD', where, modes, ('order',), 'order', 'no destination is opened for writing before minify() returned for its source', None)
     E.report(rep, 'C15.ERR', where, modes, ('failure',), 'failures', 'a failing source ends the run with a failure status, later files untouched', None)
-    for r in ('C15.SEL', 'C15.WRT', 'C15.ORD', 'C15.ERR'):
+    for r in ('C15.SEL', 'C15.WRT', 'C15.CNT', 'C15.ORD', 'C15.ERR'):
         rep.floor(r, 9)
     # no other file-system mutation anywhere in the package
     n = 0
